@@ -49,6 +49,9 @@ CLAIMED['C07'] = ('bounded symbolic execution of clang LLVM IR of dump/load + z3
 CLAIMED['C08'] = ('bounded symbolic execution of clang LLVM IR of the loaders over a modelled stream with symbolic truncation point, symbolic replaced word and symbolic failure index + z3; uninitialised-data dependence queries',
     'Every proper prefix of every dump in the C06 state space, every altered header/footer/tag/width word with any replacement value, incompatible stack pairs, and a stream failing from the n-th read for every n: an exception is raised on every feasible path; no field, abort, memory error, hang or decision on uninitialised bytes. NDEBUG and assertion-enabled IR.', '3.C08')
 
+CLAIMED['C12'] = ('bounded symbolic execution of clang LLVM IR of the special members, converting constructors and IO with a heap audit + z3; inductive single steps from an arbitrary API-built pre-state plus bounded histories',
+    'One operation (copy/move construct/assign incl. self-assignment, write, destroy, convert, dump/load) with symbolic slot arguments from every pre-state over 2-3 slots (empty/live/moved-from, extents and contents symbolic): all live fields equal their plain-array model, buffers are distinct, nothing leaks, nothing is freed twice or used after free; histories of length 2-3 with symbolic operation choice as a direct tie.', '3.C12')
+
 NA = {
     'C13': 'decided by the C++ type checker (overload resolution, constraints, template instantiation): there is no IR to execute and no SMT encoding of C++ semantic analysis within reach; enumerating and compiling stacks would be a different technique (DESIGN.md section 5)',
 }
